@@ -318,6 +318,7 @@ namespace {
         return p;
     }
 
+    using spin_t = pika::concurrency::detail::spinlock;
     template <typename CV, typename Mutex, bool HasStop, bool OsOk>
     void run_cv(RunCtx& ctx)
     {
@@ -332,6 +333,11 @@ namespace {
         // mutex, its owner pending). That is the usual hazard of OS locks held across a task switch, not a
         // property of the condition variable: all parties of this sub-workload are OS threads.
         if (std::is_same_v<Mutex, std::mutex>) os_mask = ctx.params.set("c07.os_mask", 63);
+        // A spinlock as user lock is taken by spinning with yields, and the library may switch its owner out
+        // while it holds it (it takes its internal lock first): where no other worker can steal, the spinning
+        // task can starve the owner in its own queue for good (C01's known finding kf_yield_starvation, seen
+        // once in 29 000 thorough runs with min_tasks_to_steal_pending = 3). Task parties only where stealing works.
+        if (std::is_same_v<Mutex, spin_t> && !pk::steals(ctx)) os_mask = ctx.params.set("c07.os_mask", 63);
         if (!ctx.program_from_replay) ctx.program = gen(ctx, nparties, HasStop);
         sim_config sc = draw_sim_config(ctx, 60000, FAULT_STALL | FAULT_CLOCKJUMP | FAULT_TRYFAIL | FAULT_SPURIOUS);
         begin_sim(ctx, sc);
